@@ -202,7 +202,7 @@ def run_ascii(ctx):
         if ch in ":%":
             continue
         legal = ch in rfc.REG_NAME_CHARS
-        for h in (f"::1%z{ch}z", f"fe80::1%{ch}", f"fe80::a%eth0{ch}", f"1.2.3.4%{ch}1", f"::1%a{ch}:1", f"::1%{ch}]:x"):
+        for h in (f"::1%z{ch}z", f"fe80::1%{ch}", f"fe80::a%eth0{ch}", f"1.2.3.4%{ch}1", f"::1%a{ch}:1", f"::1%{ch}]:x", f"fe80::1%25{ch}", f"fe80::1%2525{ch}", f"fe80::1%25{ch}25"):
             if any(c not in rfc.REG_NAME_CHARS for c in h.partition("%")[2].replace(ch, "")):
                 # another illegal character is present anyway: must be rejected whatever ch is
                 legal_h = False
@@ -245,6 +245,31 @@ def run_ascii(ctx):
                     ctx.fail("wrong_exception", case, f"{r!r}")
                 else:
                     ctx.count("rejected_ok")
+    # hosts handed over as a str SUBCLASS whose own str()/format() say something else: the characters count; and a plain str of the
+    # same text afterwards (a memo keyed by the subclass object would serve its rendering)
+    from ..ops import LoudStr, StrSub
+
+    for h, want in (("api.example.com", "api.example.com"), ("db-1.example.com", "db-1.example.com"), ("API.Example.COM", "api.example.com"), ("10.0.0.1", "10.0.0.1"), ("::1", "::1"),
+                    ("bücher.example", "xn--bcher-kva.example"), ("a_b", "a_b"), ("x", "x")):
+        for mk_ in (LoudStr, StrSub, str):
+            if mk_ is LoudStr and (":" in h or h[-1].isdigit()):
+                # the IP probe hands the caller's object to ipaddress, which reads it through str(): such a host is taken for a reg-name
+                # (and rejected or not depending on what the host cache holds).  A loud-str IP literal is outside what the statement's
+                # "hosts" are; noted in DESIGN.md, not judged
+                ctx.count("gray_loudstr_ip_literal")
+                continue
+            hv = mk_(h)
+            for route, fn in (("build_host", lambda: URL.build(scheme="http", host=hv, port=8080)), ("with_host", lambda: base.with_host(hv)),
+                              ("build_authority", lambda: URL.build(scheme="http", authority=mk_("u@" + h if ":" not in h else "u@[" + h + "]")))):
+                r = guarded(fn)
+                ctx.ev((route, "strsubclass", mk_.__name__, "exc" if is_exc(r) else "ok"))
+                case = {"route": route, "host": h, "argument_type": mk_.__name__}
+                if is_exc(r):
+                    ctx.fail("legal_host_rejected", case, f"{r!r}")
+                    continue
+                rh, st = guarded(lambda: r.raw_host), guarded(str, r)
+                if rh != want or type(rh) is not str or is_exc(st) or "LoudStr" in st or (("[" + want + "]") if ":" in want else want) not in st:
+                    ctx.fail("raw_host_unexpected", case, f"raw_host={rh!r} ({type(rh).__name__}) str={st!r} expected host {want!r}")
     for h, ok in (("a%41b", True), ("a%zzb", False), ("a%4", False), ("a%", False), ("%41", True), ("a%4gb", False),
                   # pct-encoded reg-names that end in a digit: the encoder probes them as IP-literal candidates first
                   ("node%2D1", True), ("caf%C3%A9", True), ("a%41b.example9", True), ("%31", True), ("a%zz9", False), ("a%9", False),
